@@ -46,7 +46,7 @@ NoLast == [kind |-> "none"]
 Init ==
   /\ \E mg \in MaxGasChoices :
        S = [w |-> W0, baseFee |-> 1, minGP |-> 0, maxGas |-> mg, now |-> 5, h |-> 2, blockGas |-> 0, txCount |-> 0,
-            gasOf |-> <<>>, logsOf |-> <<>>, blooms |-> <<>>]
+            gasOf |-> <<>>, logsOf |-> <<>>, blooms |-> <<>>, enableCreate |-> TRUE, enableCall |-> TRUE]
   /\ last = NoLast /\ adm = {} /\ nblocks = 1 /\ ntx = 0
   /\ (Witness => \A i \in 1..10 : TLCSet(i, FALSE))
 
